@@ -1061,6 +1061,21 @@ def time_offsets(draw, kind, n):
             day += timedelta(days=1)
         return ([days[0].year, days[0].month, days[0].day, tod // 60, tod % 60],
                 [1440 * (x - days[0]).days for x in days])
+    if kind == "DI":
+        # a long daily head followed by an intraday tail (a record that was daily for years and is sampled intraday since)
+        h = draw(st.integers(max(1, n // 2), max(1, n - 4)))
+        out = [1440 * i for i in range(h)]
+        day, left = h, n - h
+        while left > 0:
+            k = min(left, draw(st.integers(2, 4)))
+            mins = sorted(draw(st.lists(st.integers(0, 1439), min_size=k, max_size=k, unique=True)))
+            out.extend(1440 * day + m for m in mins)
+            day += 1
+            left -= k
+        out = sorted(set(out))
+        while len(out) < n:
+            out.append(out[-1] + 1440)
+        return [y, mo, d, tod // 60, tod % 60], out
     if kind == "irr":
         gaps = draw(st.lists(st.one_of(st.integers(1, 5), st.integers(1, 40), st.sampled_from([365, 400])),
                              min_size=n - 1, max_size=n - 1))
@@ -1140,6 +1155,15 @@ def definition_cases(draw, tier="quick"):
     case = draw(base_cases(tier))
     case["tearsheet"] = draw(st.sampled_from([True, False, False]))
     case["track"] = draw(st.sampled_from([True, False, False, False]))
+    return case
+
+
+@st.composite
+def long_cases(draw, tier="quick"):
+    """Series of 520-1500 rows (the default sizes stop at 400): daily, irregular, intraday, and a daily head with an intraday tail."""
+    case = draw(base_cases(tier, kinds=["DI", "DI", "intra", "D", "irr"], sizes=st.integers(520, 1500)))
+    case["tearsheet"] = draw(st.sampled_from([True, False]))
+    case["track"] = False
     return case
 
 
@@ -1306,6 +1330,7 @@ def run_calendars(case):
 PARTS = [
     Part("calendars", strategy=lambda tier: calendar_cases(tier), run=run_calendars, quick=400, thorough=10000),
     Part("definitions", strategy=lambda tier: definition_cases(tier), run=run_definitions, quick=1200, thorough=30000),
+    Part("long", strategy=lambda tier: long_cases(tier), run=run_definitions, quick=96, thorough=4000),
     Part("scale", strategy=lambda tier: scale_cases(tier), run=run_scale, quick=600, thorough=16000),
     Part("window", strategy=lambda tier: window_cases(tier), run=run_window, quick=300, thorough=8000),
     Part("derived", strategy=lambda tier: derived_cases(tier), run=run_derived, quick=400, thorough=10000),
